@@ -254,9 +254,11 @@ def k_ext(seq, final):
 def obligations(tier):
     thorough = tier == "thorough"
     seqs = []
-    cmax = 3 if thorough else 2
+    cmax = 4 if thorough else 3
     for c in range(0, cmax + 1):
         for seq in itertools.product(OUTCOMES, repeat=c):
+            if c == 4 and len(set(seq)) < 3:
+                continue
             for final in ("close", "userclose"):
                 seqs.append(dict(seq=list(seq), final=final))
     extra = [dict(seq=["eof", "refused"], final="close", on_reconnect=False), dict(seq=["reset"], final="userclose", on_reconnect=False),
